@@ -387,18 +387,38 @@ fn check_once(_ctx: &Ctx, c: &HistCase, probe: &mut Probe) -> Check {
     let mut windows = BTreeSet::new();
     for s in &c.steps {
         // classify retry windows before applying
-        if let Step::Retry { which } = s {
+        if let Step::Retry { which } | Step::RetryPlain { which } = s {
             if !w.submitted.is_empty() {
                 let (env, head) = &w.submitted[vkit::pick_idx(*which, w.submitted.len())];
                 if let Some(h) = head {
                     let committed = w.committed.get(&(*h, env.ingress_id())).copied().unwrap_or(0) > 0
                         || w.frontier(wl_ix(&h.worldline_id).unwrap()).store(&warp_id(0)).map(|st| st.node(&NodeId(env.ingress_id())).is_some()).unwrap_or(false);
-                    windows.insert(if committed { "after-commit" } else { "while-pending" });
+                    windows.insert(if committed && w.restarts > 0 { "after-commit-and-restart" } else if committed { "after-commit" } else { "while-pending" });
                 }
             }
         }
         let tag = w.apply_step(&c.world, s);
-        if tag == "retry:accepted" {
+        if tag.starts_with("restart:failed") {
+            if w.mixed_ticks > 0 && tag.contains("ReceiptCorrelationReplayMismatch") {
+                // recovery re-validation refuses a tick in which one admitted intent matched no
+                // rule while another did (the live commit accepts it): that is C10's subject
+                // (recovery succeeds on what was acknowledged), not an ingress question
+                probe.class("restart-refused:mixed-tick(C10 subject)");
+                return Ok(());
+            }
+            vfail!("C08/restart-refused-own-retained-history", "{tag}");
+        }
+        if tag == "restart" {
+            probe.class("restart");
+            // the restarted runtime stands where the live one stood
+            for wl in 0..w.n_wl() as u8 {
+                vensure_eq!(w.frontier(wl).current_tick().as_u64(), w.len(wl), "C08/restart/frontier-tick", "worldline {wl}");
+                if let Some(lt) = w.ledger[wl as usize].last() {
+                    vensure_eq!(w.frontier(wl).state_root(), lt.state_root, "C08/restart/frontier-state", "worldline {wl}");
+                }
+            }
+        }
+        if tag == "retry:accepted" || tag == "retry-ticketed:staged" {
             // a retry may be accepted again only if it is neither pending nor committed on that head
             let (env, head) = w.submitted.last().unwrap();
             if let Some(h) = head {
@@ -437,5 +457,6 @@ pub fn subs(_ctx: &Ctx) -> Vec<Box<dyn Sub>> {
         prop_sub("ingress-identity", 20_000, 400_000, id_case(), check_identity),
         prop_sub("arrival-order-retries-inbox-model", 500, 12_000, case8(), check8),
         prop_sub("at-most-once-over-histories", 1_500, 40_000, hist_case(2, 3, 60), check_once),
+        prop_sub("at-most-once-across-restarts", 1_500, 40_000, hist_case_ticketed(2, 3, 60), check_once),
     ]
 }
